@@ -293,6 +293,31 @@ def check_cli_trans(fmt, size, spec, trans, src_variant=None):
         return out
     if got != want:
         bad('parts-differ-from-unsplit', 'concatenated parts %r, unsplit output %r' % (got, want))
+    # the caller's namespace is the caller's: the same argparse namespace handed to the command twice (only the
+    # destination changed in between) must give the same parts twice
+    try:
+        if src_fmt == 'export':
+            # (grammatical functions on every node, so that the writer options show in the output)
+            def fe(nd):
+                return nd if isinstance(nd, int) else (nd[0], 'OA', tuple(fe(k) for k in nd[2]))
+            emts = [model.MT(m.sid, [dict(tk, edge=('SB', 'HD')[j % 2]) for j, tk in enumerate(m.toks)], fe(m.root)) for m in mts]
+            src = os.path.join(d, 'c17te.export')
+            with open(src, 'w', encoding='utf-8') as f:
+                f.write(codecs.encode_export(emts))
+        ns = cli.parse(['transform', src, dest + '.a'] + base + ['--dest-opts', 'gf', 'gf_separator:#', '--split', spec])
+        sta, _, _, exca = cli.call(ns)
+        ns.dest = dest + '.b'
+        stb, _, _, excb = cli.call(ns)
+        pa = {os.path.basename(f)[len('c17t.out.a'):]: open(f, 'rb').read() for f in sorted(glob.glob(dest + '.a*'))}
+        pb = {os.path.basename(f)[len('c17t.out.b'):]: open(f, 'rb').read() for f in sorted(glob.glob(dest + '.b*'))}
+        if (sta == 0) != (stb == 0):
+            bad('namespace-reuse', 'first run exit status %r, second run with the same namespace %r %s' % (sta, stb, cli.describe(excb)))
+        elif sta == 0 and pa != pb:
+            k = next(k for k in sorted(set(pa) | set(pb)) if pa.get(k) != pb.get(k))
+            bad('namespace-reuse', 'the same namespace handed in twice: part %r of the second run differs (%r ... vs %r ...)'
+                % (k, (pb.get(k) or b'')[:120], (pa.get(k) or b'')[:120]))
+    except Exception as e:
+        bad('exception', 'namespace reuse: %s: %s' % (type(e).__name__, e))
     return out
 
 
